@@ -41,6 +41,9 @@ type Node struct {
 	// a lambda with options (ty lambdaA / lambdaB): the paradigm(s) it implements natively
 	// (0 Invoke, 1 Stream, 2 Collect, 3 Transform, 4 Invoke+Transform, 5 Stream+Collect)
 	Nat int `json:"nat,omitempty"`
+	// Back: the relay that closes the loop of a looping graph (Graph.Loop): the last node of
+	// the chain branches to it (or to END), and it leads to the first node again
+	Back bool `json:"back,omitempty"`
 }
 
 type Graph struct {
@@ -48,6 +51,10 @@ type Graph struct {
 	Dag   bool   `json:"dag,omitempty"`
 	Wf    bool   `json:"wf,omitempty"` // built as a compose.Workflow (all-predecessor, eager) instead of a compose.Graph
 	Chain bool   `json:"chain,omitempty"` // built as a compose.Chain (the graph is one chain; node keys through WithNodeKey)
+	// Loop > 0: the graph is one chain first -> ... -> last (pregel mode) and runs 1+Loop times
+	// in a run: after last a branch leads to the Back relay and from there to first again, Loop
+	// times, then to END. Every execution of a node must be handed the call's options.
+	Loop int `json:"loop,omitempty"`
 	// interrupt points of this graph (compile options; resume cases only)
 	IB []int `json:"ib,omitempty"`
 	IA []int `json:"ia,omitempty"`
@@ -81,6 +88,11 @@ type Case struct {
 	// (interrupt before / after nodes, InterruptAndRerun, at the top level and inside nested
 	// graphs), each call with its own options, until a call completes.
 	Resume bool `json:"resume,omitempty"`
+	// Share: the calls re-use option values: wherever the script of a later call starts like
+	// the script of call 0, the compose.Option values built for call 0 are passed again (the
+	// caller keeps its options in variables and passes them to call after call). A call must
+	// leave the Options it is given as they were.
+	Share bool `json:"share,omitempty"`
 }
 
 type PL struct {
@@ -94,6 +106,11 @@ type CallObs struct {
 	Deliv []PL   `json:"deliv,omitempty"`
 	Fired []PL   `json:"fired,omitempty"`
 	Extra string `json:"extra,omitempty"` // harness-level anomaly (node ran twice, unexpected node ran)
+	// a node that executed several times in the call (a loop) was not handed the same option
+	// values every time
+	Differ []string `json:"differ,omitempty"`
+	// ... or did not have the same handlers fire every time
+	DifferCb []string `json:"differcb,omitempty"`
 	// resume cases: the node paths that executed / the graph nodes that were entered in this call
 	Ran []string `json:"ran,omitempty"`
 	// resume cases: the checkpoint the call was entered with (nil: none)
@@ -198,6 +215,10 @@ func buildGraph1(ctx context.Context, F []Graph, gi int, pre []int, depth int, b
 			hasSucc[nd.Pred] = true
 		}
 	}
+	firstKey := ""
+	if order := chainOrder(F[gi]); F[gi].Loop > 0 && order != nil {
+		firstKey = keyStr(order[0].Key)
+	}
 	for _, nd := range F[gi].Nodes {
 		key := keyStr(nd.Key)
 		p := append(append([]int{}, pre...), nd.Key)
@@ -238,6 +259,32 @@ func buildGraph1(ctx context.Context, F []Graph, gi int, pre []int, depth int, b
 			return nil, fmt.Errorf("harness: bad node kind %q", nd.Kind)
 		}
 		switch {
+		case nd.Back:
+			// the loop: Pred (the last node of the chain) -> this relay (Loop times, then END);
+			// this relay -> the first node
+			if firstKey == "" {
+				return nil, fmt.Errorf("harness: back relay in a graph that does not loop")
+			}
+			loops := F[gi].Loop
+			br := compose.NewGraphBranch(func(ctx context.Context, in map[string]any) (string, error) {
+				if r := recOf(ctx); r != nil {
+					r.mu.Lock()
+					r.loop[name]++
+					it := r.loop[name]
+					r.mu.Unlock()
+					if it%(loops+1) != 0 {
+						return key, nil
+					}
+				}
+				return compose.END, nil
+			}, map[string]bool{key: true, compose.END: true})
+			if err := g.AddBranch(keyStr(nd.Pred), br); err != nil {
+				return nil, err
+			}
+			if err := g.AddEdge(key, firstKey); err != nil {
+				return nil, err
+			}
+			continue
 		case nd.Pred != 0:
 			if err := g.AddEdge(keyStr(nd.Pred), key); err != nil {
 				return nil, err
@@ -285,10 +332,26 @@ func toNodePaths(paths [][]int) []*compose.NodePath {
 	return out
 }
 
-// buildOpts runs the script against the real option constructors.
-func buildOpts(c Call) ([]compose.Option, error) {
+// sameOp: two script steps build the same option
+func sameOp(a, b BOp) bool {
+	x, _ := json.Marshal(a)
+	y, _ := json.Marshal(b)
+	return string(x) == string(y)
+}
+
+// buildOpts runs the script against the real option constructors. shared / sharedScript: the
+// option values already built for another call by the steps of sharedScript; as long as the
+// script starts with the same steps, those values are taken instead of building new ones.
+// Returns the passed options and everything that was built.
+func buildOpts(c Call, shared []compose.Option, sharedScript []BOp) ([]compose.Option, []compose.Option, error) {
 	var env []compose.Option
-	for _, b := range c.Script {
+	reuse := true
+	for j, b := range c.Script {
+		if reuse && j < len(shared) && j < len(sharedScript) && sameOp(b, sharedScript[j]) {
+			env = append(env, shared[j])
+			continue
+		}
+		reuse = false
 		switch b.Op {
 		case "items":
 			env = append(env, mkOption(b.Items, b.Lambda))
@@ -296,7 +359,7 @@ func buildOpts(c Call) ([]compose.Option, error) {
 			env = append(env, compose.WithCallbacks(mkHandlers(b.Hs)...))
 		case "designate":
 			if b.Parent < 0 || b.Parent >= len(env) {
-				return nil, fmt.Errorf("harness: bad parent")
+				return nil, nil, fmt.Errorf("harness: bad parent")
 			}
 			allOne := len(b.Paths) > 0
 			for _, p := range b.Paths {
@@ -314,17 +377,40 @@ func buildOpts(c Call) ([]compose.Option, error) {
 				env = append(env, env[b.Parent].DesignateNodeWithPath(toNodePaths(b.Paths)...))
 			}
 		default:
-			return nil, fmt.Errorf("harness: bad op %q", b.Op)
+			return nil, nil, fmt.Errorf("harness: bad op %q", b.Op)
 		}
 	}
 	out := make([]compose.Option, 0, len(c.Pass))
 	for _, j := range c.Pass {
 		if j < 0 || j >= len(env) {
-			return nil, fmt.Errorf("harness: bad pass index")
+			return nil, nil, fmt.Errorf("harness: bad pass index")
 		}
 		out = append(out, env[j])
 	}
-	return out, nil
+	return out, env, nil
+}
+
+// buildAllOpts builds the options of every call of the case (before any call starts, by the
+// goroutine that owns the case).
+func buildAllOpts(c *Case) ([][]compose.Option, error) {
+	opts := make([][]compose.Option, len(c.Calls))
+	var env0 []compose.Option
+	for i, cl := range c.Calls {
+		var shared []compose.Option
+		var sharedScript []BOp
+		if c.Share && i > 0 {
+			shared, sharedScript = env0, c.Calls[0].Script
+		}
+		o, env, err := buildOpts(cl, shared, sharedScript)
+		if err != nil {
+			return nil, err
+		}
+		if i == 0 {
+			env0 = env
+		}
+		opts[i] = o
+	}
+	return opts, nil
 }
 
 // ---------------------------------------------------------------- running
@@ -403,11 +489,9 @@ func runCase(c *Case) (obs []CallObs, fatal string) {
 	}
 	// options are built before any call starts (so that a builder that shares memory between
 	// derived options shows in the calls), by the goroutine that owns the case
-	opts := make([][]compose.Option, len(c.Calls))
-	for i, cl := range c.Calls {
-		if opts[i], err = buildOpts(cl); err != nil {
-			return nil, err.Error()
-		}
+	opts, err := buildAllOpts(c)
+	if err != nil {
+		return nil, err.Error()
 	}
 	one := func(i int) {
 		cl := c.Calls[i]
@@ -452,6 +536,53 @@ func runCase(c *Case) (obs []CallObs, fatal string) {
 	return obs, ""
 }
 
+// timesOf: how often the node at path p executes in one call: every looping graph on the way
+// runs 1+Loop times per execution of its graph node; the Back relay of a loop Loop times.
+func timesOf(F []Graph, p []int) int {
+	gi, m := 0, 1
+	for i, k := range p {
+		if gi < 0 || gi >= len(F) {
+			return m
+		}
+		g := F[gi]
+		nd := findNode(g, k)
+		if nd == nil {
+			return m
+		}
+		if nd.Back && i == len(p)-1 {
+			return m * g.Loop
+		}
+		m *= 1 + g.Loop
+		gi = nd.Sub
+	}
+	return m
+}
+
+// perExecution: the sorted handler ids fired at a node in one of its n executions, given the
+// ids fired over all of them (ok = every id occurs a multiple of n times)
+func perExecution(all []int, n int) ([]int, bool) {
+	s := sortedCopy(all)
+	if n <= 1 {
+		return s, true
+	}
+	out := []int{}
+	ok := true
+	for i := 0; i < len(s); {
+		j := i
+		for j < len(s) && s[j] == s[i] {
+			j++
+		}
+		if (j-i)%n != 0 {
+			ok = false
+		}
+		for k := 0; k < (j-i+n-1)/n; k++ {
+			out = append(out, s[i])
+		}
+		i = j
+	}
+	return out, ok
+}
+
 func firstLine(s string) string {
 	s = strings.ReplaceAll(s, "\n", " | ")
 	if len(s) > 240 {
@@ -471,13 +602,30 @@ func collect(c *Case, rec *recorder) CallObs {
 	walk(c.Forest, 0, nil, 0, func(p []int, nd Node) {
 		name := pathName(p)
 		expected[name] = true
+		// how often the node executes in one call (looping graphs around it)
+		want := timesOf(c.Forest, p)
+		perExec := func() []int {
+			hs, ok := perExecution(rec.fired[name], want)
+			if !ok {
+				o.DifferCb = append(o.DifferCb, fmt.Sprintf("handlers fired at %s over its %d executions are not %d times the same: %v", name, want, want, sortedCopy(rec.fired[name])))
+			}
+			return hs
+		}
 		switch nd.Kind {
 		case "comp", "relay":
-			if rec.ran[name] != 1 {
-				extra = append(extra, fmt.Sprintf("node %s executed %d times", name, rec.ran[name]))
+			if rec.ran[name] != want {
+				extra = append(extra, fmt.Sprintf("node %s executed %d times (expected %d)", name, rec.ran[name], want))
 			}
-			o.Deliv = append(o.Deliv, PL{Path: p, Vals: append([]int{}, rec.deliv[name]...)})
-			o.Fired = append(o.Fired, PL{Path: p, Vals: sortedCopy(rec.fired[name])})
+			vals := []int{}
+			for k, d := range rec.delivs[name] {
+				if k == 0 {
+					vals = append(vals, d...)
+				} else if !eqInts(d, rec.delivs[name][0]) {
+					o.Differ = append(o.Differ, fmt.Sprintf("%s received %v in execution 1 and %v in execution %d", name, rec.delivs[name][0], d, k+1))
+				}
+			}
+			o.Deliv = append(o.Deliv, PL{Path: p, Vals: vals})
+			o.Fired = append(o.Fired, PL{Path: p, Vals: perExec()})
 		case "pass":
 			// a passthrough cannot observe anything: it receives no option by construction of the API
 			o.Deliv = append(o.Deliv, PL{Path: p, Vals: []int{}})
@@ -485,7 +633,7 @@ func collect(c *Case, rec *recorder) CallObs {
 				extra = append(extra, "callback fired for passthrough "+name)
 			}
 		case "sub":
-			o.Fired = append(o.Fired, PL{Path: p, Vals: sortedCopy(rec.fired[name])})
+			o.Fired = append(o.Fired, PL{Path: p, Vals: perExec()})
 		}
 	})
 	for name := range rec.ran {
@@ -571,7 +719,7 @@ func coqObs(o CallObs) string {
 	case "err":
 		return "OErr"
 	case "ok", "int":
-		if o.Extra != "" {
+		if o.Extra != "" || len(o.Differ) > 0 || len(o.DifferCb) > 0 {
 			return "(OModelBad 1%N)"
 		}
 		return lib.CoqApp("OOk", coqPLs(o.Deliv), coqPLs(o.Fired))
@@ -585,7 +733,7 @@ type engine struct{}
 
 func (engine) ID() string { return "C16" }
 func (engine) CoqHeader() string {
-	return "From Eino Require Import Base.Util Model.Options Model.OptionsResume Corr.C16.\n"
+	return "From Eino Require Import Base.Util Model.Options Model.OptionsResume Model.OptionsAll Corr.C16.\n"
 }
 func (engine) CoqCaseType() string { return "ccase" }
 
